@@ -348,13 +348,14 @@ def run(ctx):
                 bad.append(b)
         if len(bad) == 3:
             break
-    if len(bad) < 3:
+    if len(bad) < 3 and not ctx.violations:
         raise MachineryError("binding demo: not enough accepted traces to corrupt")
-    vs = tracecheck.validate(ctx, "AmMemTrace", bad, "binding-demo", count_states=False)
-    ctx.cov["traces_validated_against_impl"] -= len(bad)
-    if any(v[0] != "REJ" for v in vs):
-        raise MachineryError("binding demo: corrupted traces were accepted: %r" % (vs,))
-    ctx.cov["stages"]["binding-demo/validate"]["corrupted_rejected"] = [list(map(str, v)) for v in vs]
+    if len(bad) == 3:   # (when the implementation is being rejected there may be too few accepted traces to corrupt)
+        vs = tracecheck.validate(ctx, "AmMemTrace", bad, "binding-demo", count_states=False)
+        ctx.cov["traces_validated_against_impl"] -= len(bad)
+        if any(v[0] != "REJ" for v in vs):
+            raise MachineryError("binding demo: corrupted traces were accepted: %r" % (vs,))
+        ctx.cov["stages"]["binding-demo/validate"]["corrupted_rejected"] = [list(map(str, v)) for v in vs]
 
     ctx.cov["exhaustive"] = False
     ctx.cov["rule"] = ("cases = executions of the real Memory (walks covering every edge of the AmMem graph of %d small "
